@@ -192,7 +192,7 @@ class Enum(t.Enum, metaclass=EnumType):
             indices = _int_to_index(cls, value)
         elif _is_str_array(value):  # type: ignore[unreachable]
             indices = _str_to_index(cls, value)
-        elif _is_enum_array(value) and cls == value[0].__class__:
+        elif _is_enum_array(value) and all(cls == item.__class__ for item in value):
             indices = _enum_to_index(value)
         else:
             raise EnumEncodingError(cls, value)
@@ -206,7 +206,9 @@ class Enum(t.Enum, metaclass=EnumType):
             indices = _int_to_index(cls, value)
         elif _is_str_array_like(value):  # type: ignore[unreachable]
             indices = _str_to_index(cls, value)
-        elif _is_enum_array_like(value):
+        elif _is_enum_array_like(value) and all(
+            cls == item.__class__ for item in value
+        ):
             indices = _enum_to_index(value)
         else:
             raise EnumEncodingError(cls, value)
